@@ -258,6 +258,28 @@ func c20Calls(r *fw.Rand, n int) []c20Call {
 			}
 			return res.DIDDocument.ID
 		}})
+		// ... and with the keys left to the VDR (it draws them itself: the DID differs from call to call, so the call reports only
+		// whether what it got resolves to itself)
+		if r.Chance(1, 2) {
+			ownDoc, _, _ := c17Doc(r) // a document of its own: calls do not share inputs
+			withUpdateKey := r.Bool()
+			calls = append(calls, c20Call{"vdr", func(e *c20Env, keep keepFn) string {
+				cp := *ownDoc
+				opts := []vdrapi.DIDMethodOption{}
+				if withUpdateKey {
+					opts = append(opts, vdrapi.WithOption(sidetreelongform.UpdatePublicKeyOpt, uk.Public()))
+				}
+				res, err := e.vdr.Create(&cp, opts...)
+				if err != nil {
+					return resStr(nil, err)
+				}
+				back, err := e.vdr.Read(res.DIDDocument.ID)
+				if err != nil || back.DIDDocument.ID != res.DIDDocument.ID {
+					return "created DID does not resolve to itself: " + res.DIDDocument.ID + " " + fmt.Sprint(err)
+				}
+				return "created-with-own-keys:resolves"
+			}})
+		}
 		// canonicalizer / hashing directly, on values with control characters, all Unicode planes and every number class
 		obj := gen.RandObject(r, 3)
 		obj["ctl"] = "a\x01b\x0b\x1f" + gen.RandString(r, 6)
@@ -473,6 +495,86 @@ func c20Stress(c *fw.Case, goroutines, procs, ncalls int) {
 		c.Sig("overlap", p)
 	}
 	c.Sample(map[string]interface{}{"goroutines": goroutines, "GOMAXPROCS": procs, "calls": len(calls), "overlapping_pairs": overlaps, "distinct_overlap_patterns": len(patterns)})
+}
+
+// c20Volume sends a few thousand distinct, correctly signed operations through ONE applier from several goroutines (each on its own
+// previous state): whatever the applier keeps between calls has to cope with more entries than it cares to keep, while in use.
+func c20Volume(c *fw.Case, n, goroutines int) {
+	r := c.Rng
+	proto := histProto(true)
+	ref, shared := sut.NewStack(proto), sut.NewStack(proto)
+	type item struct {
+		op   *operation.AnchoredOperation
+		prev *protocol.ResolutionModel
+		want string
+	}
+	show := func(s *protocol.ResolutionModel, err error) string {
+		if err != nil {
+			return resStr(nil, err)
+		}
+		return resStr(map[string]interface{}{"doc": s.Doc, "u": s.UpdateCommitment, "r": s.RecoveryCommitment, "d": s.Deactivated, "v": s.VersionID}, nil)
+	}
+	small := []interface{}{gen.PAddKeys(gen.DocKey(r, "k1", gen.TJwk2020, []string{"authentication"}, "jwk"))}
+	items := make([]item, 0, n)
+	for i := 0; i < n; i++ {
+		h := &histCtx{r: r, proto: proto, code: 18, keyType: gen.Ed25519, hasIETF: false}
+		cs := planStep(h, 'c', "valid", 1000, nil, func(h *histCtx, s *opStep) { s.Spec.Patches = small })
+		typ := "uuurd"[i%5]
+		us := planStep(h, typ, "valid", 2000, nil, func(h *histCtx, s *opStep) {
+			if typ != 'd' {
+				s.Spec.Patches = []interface{}{gen.PAddAka(fmt.Sprintf("did:example:%d", i))}
+			}
+		})
+		prev, err := ref.Applier.Apply(anchoredOf(cs, h.ch.Suffix), &protocol.ResolutionModel{})
+		if err != nil {
+			c.Failf("env", map[string]interface{}{"err": err.Error()}, "valid create refused: %v", err)
+			return
+		}
+		op := anchoredOf(us, h.ch.Suffix)
+		items = append(items, item{op: op, prev: prev, want: show(ref.Applier.Apply(anchoredOf(us, h.ch.Suffix), prev))})
+	}
+	got := make([]string, n)
+	var wg sync.WaitGroup
+	gate := make(chan struct{})
+	for g := 0; g < goroutines; g++ {
+		wg.Add(1)
+		go func(g int) {
+			defer wg.Done()
+			<-gate
+			for i := g; i < n; i += goroutines {
+				func() {
+					defer func() {
+						if rec := recover(); rec != nil {
+							got[i] = fmt.Sprintf("PANIC:%v", rec)
+						}
+					}()
+					got[i] = show(shared.Applier.Apply(items[i].op, items[i].prev))
+				}()
+			}
+		}(g)
+	}
+	done := make(chan struct{})
+	go func() { wg.Wait(); close(done) }()
+	close(gate)
+	select {
+	case <-done:
+	case <-time.After(150 * time.Second):
+		buf := make([]byte, 1<<16)
+		buf = buf[:runtime.Stack(buf, true)]
+		c.Failf("lock-up:applier", map[string]interface{}{"operations": n, "goroutines": goroutines, "stacks": firstN(string(buf), 6000)}, "%d goroutines applying %d distinct signed operations through one applier did not finish within 150 s", goroutines, n)
+		return
+	}
+	c.Evals(n)
+	c.Count("volume-operations", n)
+	c.Sig("volume", goroutines)
+	for i := range items {
+		if got[i] != items[i].want {
+			c.Failf("concurrent-result-differs:applier", map[string]interface{}{"component": "applier", "sequential": items[i].want, "concurrent": got[i], "goroutines": goroutines, "operation_number": i, "operations": n},
+				"applier: operation %d of %d distinct signed operations gives another result through the shared applier than sequentially", i, n)
+			return
+		}
+	}
+	c.Sample(map[string]interface{}{"operations": n, "goroutines": goroutines})
 }
 
 // ---------------------------------------------------------------------------
@@ -837,6 +939,11 @@ func runC20(r *fw.Runner) {
 				r.Case("stress", func(c *fw.Case) { c20Stress(c, g, p, r.N(130, 390)) })
 			}
 		}
+	}
+	// volume: more distinct signed operations through one applier than any bounded memory inside it would keep
+	for b := 0; b < r.N(1, 3); b++ {
+		b := b
+		r.Case("volume", func(c *fw.Case) { c20Volume(c, 2600, []int{8, 4, 16}[b%3]) })
 	}
 	for b := 0; b < r.N(400, 6000); b++ {
 		b := b
